@@ -47,6 +47,11 @@ def cases(tier, seed):
             yield {"kind": "svgp_mt", "wrapper": wrapper, "seed": rnd.randrange(10**6)}
         for lk in ("gauss", "fixed", "fixed+learn", "mt"):
             yield {"kind": "noise", "lik": lk, "seed": rnd.randrange(10**6)}
+        # exact multitask models (Kronecker) and exact models with missing observations under both NaN policies
+        for rank, fpv, geo in itertools.product([0, 1], [False, True], ["random", "dups"]):
+            yield {"kind": "mt_model", "rank": rank, "fast_pred_var": fpv, "geom": geo, "noise": rnd.choice([1e-4, 1e-2, 0.3]), "seed": rnd.randrange(10**6)}
+        for pol, kern, fpv in itertools.product(["mask", "fill"], ["rbf", "matern2.5"], [False, True]):
+            yield {"kind": "nan_model", "policy": pol, "kernel": kern, "fast_pred_var": fpv, "noise": rnd.choice([1e-4, 1e-2, 0.3]), "seed": rnd.randrange(10**6)}
         # covariance invariants along histories of state-changing operations (shared driver with C03): the hooks see every
         # covariance handed out after train steps, load_state_dict, set_train_data, fantasies ...
         for fam in ("default", "batch", "sgpr", "svgp_whitened", "svgp_unwhitened", "svgp_meanfield"):
@@ -173,7 +178,7 @@ def run_case(case, ctx):
     from vf import util
 
     g = util.gen(case["seed"])
-    return {"gram": _gram, "model": _model, "svgp": _svgp, "svgp_mt": _svgp_multitask, "noise": _noise, "history": _history}[case["kind"]](case, ctx, g)
+    return {"gram": _gram, "model": _model, "svgp": _svgp, "svgp_mt": _svgp_multitask, "mt_model": _mt_model, "nan_model": _nan_model, "noise": _noise, "history": _history}[case["kind"]](case, ctx, g)
 
 
 def _history(case, ctx, g):
@@ -338,6 +343,112 @@ def _model(case, ctx, g):
                            f"variance {float(v2.min()):.3e} / stddev {float(s2.min()):.3e} below min_variance {mv}", min_variance=mv)
                 lo, hi = m(xs).confidence_region()
                 ctx.expect("variance_floor", bool((hi - lo >= 4 * mv**0.5 * (1 - 1e-9)).all()), f"confidence region narrower than 4*sqrt(min_variance={mv})", min_variance=mv)
+    ctx.cell({k: v for k, v in case.items() if k != "seed"})
+
+
+def _mt_model(case, ctx, g):
+    """exact multitask GP (Kronecker kernel, multitask likelihood): posterior / marginal covariances PSD, conditioning does not
+    add uncertainty, reported variances at least the configured minimum"""
+    import torch
+
+    import gpytorch
+    from gpytorch import settings as S
+    from vf import util
+
+    n, d, T = 8, 2, 2
+    X = _geom(case["geom"], g, n, d)
+    Y = torch.stack([torch.sin(X.sum(-1)), torch.cos(X[:, 0])], -1) + 0.1 * util.randn(g, n, T)
+    xs = torch.cat([util.randn(g, 3, d), X[:2]])
+
+    class MT(gpytorch.models.ExactGP):
+        def __init__(s, X_, Y_, lik):
+            super().__init__(X_, Y_, lik)
+            s.mean_module = gpytorch.means.MultitaskMean(gpytorch.means.ConstantMean(), num_tasks=T)
+            s.covar_module = gpytorch.kernels.MultitaskKernel(gpytorch.kernels.MaternKernel(nu=2.5), num_tasks=T, rank=1)
+
+        def forward(s, x):
+            return gpytorch.distributions.MultitaskMultivariateNormal(s.mean_module(x), s.covar_module(x))
+
+    def build(X_, Y_):
+        lik = gpytorch.likelihoods.MultitaskGaussianLikelihood(num_tasks=T, rank=case["rank"], noise_constraint=gpytorch.constraints.GreaterThan(1e-6))
+        m = MT(X_, Y_, lik)
+        util.randomize(m, util.gen(case["seed"] + 1), 0.4)
+        lik.noise = case["noise"]
+        return m.eval(), lik.eval()
+
+    m, lik = build(X, Y)
+    kw = dict(rank=case["rank"], fast_pred_var=case["fast_pred_var"], geom=case["geom"])
+    with torch.no_grad(), S.fast_pred_var(case["fast_pred_var"]):
+        with S.prior_mode(True):
+            Cp = m(xs).covariance_matrix
+        post = m(xs)
+        Cq = post.covariance_matrix
+        _psd_report(ctx, "multitask_posterior_psd", Cq, "exact multitask posterior covariance", **kw)
+        _psd_report(ctx, "multitask_posterior_psd", lik(post).covariance_matrix, "exact multitask marginal covariance", **kw)
+        Dm = Cp - Cq
+        ev = torch.linalg.eigvalsh(0.5 * (Dm + Dm.T))
+        rel = float(ev.min() / Cp.abs().max().clamp_min(1e-300))
+        ctx.expect("prior_minus_posterior_psd", rel >= -max(1e-6 if case["fast_pred_var"] else PSD_TOL, 1e-8), f"multitask prior - posterior covariance has lambda_min/|prior| = {rel:.3e}", rel_min_eig=rel, **kw)
+        mh, _ = build(X[:3], Y[:3])
+        mh.load_state_dict(m.state_dict())
+        vh, vq = mh(xs).variance, post.variance
+        slack = 1e-8 * vh.abs().max() + (1e-6 if case["fast_pred_var"] else 1e-10)
+        ctx.expect("nested_data_variance_monotone", bool((vq <= vh + slack).all()), f"multitask variance with all {n} points exceeds variance with the first 3: max excess {float((vq - vh).max()):.3e}", **kw)
+        ctx.close("reported_variance_is_covariance_diagonal", vq, torch.diagonal(Cq).reshape(vq.shape).clamp_min(S.min_variance.value(torch.double)), (1e-8, 1e-8), cls="mt_model:variance")
+        for mv in (1e-10, 1e-3, 0.5):
+            with S.min_variance(double_value=mv):
+                o = m(xs)
+                v2, s2 = o.variance, o.stddev
+                ctx.expect("variance_floor", bool((v2 >= mv).all()) and bool((s2 >= mv**0.5 * (1 - 1e-12)).all()) and bool(torch.isfinite(s2).all()),
+                           f"multitask variance {float(v2.min()):.3e} / stddev {float(s2.min()):.3e} below min_variance {mv}", min_variance=mv, multitask=True)
+                lo, hi = o.confidence_region()
+                ctx.expect("variance_floor", bool((hi - lo >= 4 * mv**0.5 * (1 - 1e-9)).all()), f"multitask confidence region narrower than 4*sqrt(min_variance={mv})", min_variance=mv, multitask=True)
+                # a distribution object built directly, with a variance below the floor
+                tiny = gpytorch.distributions.MultitaskMultivariateNormal(torch.zeros(3, T), 1e-3 * mv * torch.eye(3 * T))
+                ctx.expect("variance_floor", bool((tiny.variance >= mv).all()) and bool((tiny.stddev >= mv**0.5 * (1 - 1e-12)).all()), f"multitask distribution reports variance {float(tiny.variance.min()):.3e} below min_variance {mv}", min_variance=mv, multitask=True)
+    ctx.cell({k: v for k, v in case.items() if k != "seed"})
+
+
+def _nan_model(case, ctx, g):
+    """exact GP whose targets contain NaN, under observation_nan_policy mask / fill: the covariance handed out is a valid
+    covariance, conditioning on the observed part does not add uncertainty, and observing less never lowers a variance"""
+    import torch
+
+    from gpytorch import settings as S
+    from vf import util
+
+    n, d = 9, 2
+    X = util.randn(g, n, d)
+    y_full = torch.sin(X.sum(-1)) + 0.1 * util.randn(g, n)
+    y = y_full.clone()
+    miss = torch.randperm(n, generator=g)[: 1 + case["seed"] % 4]
+    y[miss] = float("nan")
+    xs = torch.cat([util.randn(g, 4, d), X[miss][:1], X[:2]])
+    m, lik = _exact(case["kernel"], X, y, case["noise"], [], util.gen(case["seed"] + 1))
+    mf, _ = _exact(case["kernel"], X, y_full, case["noise"], [], util.gen(case["seed"] + 1))
+    mf.load_state_dict(m.state_dict())
+    kw = dict(policy=case["policy"], fast_pred_var=case["fast_pred_var"], kernel=case["kernel"])
+    with torch.no_grad(), S.fast_pred_var(case["fast_pred_var"]):
+        with S.prior_mode(True):
+            Cp = m(xs).covariance_matrix
+        with S.observation_nan_policy(case["policy"]):
+            try:
+                post = m(xs)
+                Cq, vq = post.covariance_matrix, post.variance
+                Cm = lik(post).covariance_matrix
+            except Exception as e:
+                ctx.fail("nan_policy_posterior_psd", f"prediction under policy {case['policy']} raised {type(e).__name__}: {str(e)[:140]}", "raise", exc=type(e).__name__, **kw)
+                ctx.cell({k: v for k, v in case.items() if k != "seed"})
+                return
+        vfull = mf(xs).variance
+    _psd_report(ctx, "nan_policy_posterior_psd", Cq, f"posterior covariance under NaN policy {case['policy']}", **kw)
+    _psd_report(ctx, "nan_policy_posterior_psd", Cm, f"marginal covariance under NaN policy {case['policy']}", **kw)
+    Dm = Cp - Cq
+    ev = torch.linalg.eigvalsh(0.5 * (Dm + Dm.T))
+    rel = float(ev.min() / Cp.abs().max().clamp_min(1e-300))
+    ctx.expect("prior_minus_posterior_psd", rel >= -max(1e-6 if case["fast_pred_var"] else PSD_TOL, 1e-8), f"prior - posterior covariance (policy {case['policy']}) has lambda_min/|prior| = {rel:.3e}", rel_min_eig=rel, **kw)
+    slack = 1e-8 * vq.abs().max() + (1e-6 if case["fast_pred_var"] else 1e-10)
+    ctx.expect("nested_data_variance_monotone", bool((vfull <= vq + slack).all()), f"variance with all {n} targets observed exceeds the variance with {len(miss)} of them missing (policy {case['policy']}): max excess {float((vfull - vq).max()):.3e}", **kw)
     ctx.cell({k: v for k, v in case.items() if k != "seed"})
 
 
